@@ -334,7 +334,6 @@ pub fn deep_targets(u: &U) -> Vec<String> {
                     || d.tags.contains(&"recursive")
                     || d.tags.contains(&"opt_alias")
                     || (d.tags.contains(&"two_fields") && rd.fields.iter().any(|f| matches!(&f.ty, Ty::Record(_)) || f.ty == Ty::DedupStr) && rd.fields.iter().all(|f| f.transient.is_none()))
-                    || (d.tags.contains(&"history") && rd.steps.len() >= 2)
             }
             Ty::Enum(ed) => ed.variants.len() == 1 || (ed.variants.len() == 2 && ed.sorted && !d.tags.contains(&"extension")),
             _ => false,
@@ -343,6 +342,16 @@ pub fn deep_targets(u: &U) -> Vec<String> {
             v.push(d.name.clone());
         }
     }
+    // histories with at least two steps: an evenly spread selection of at most 60
+    let hist: Vec<&String> = u
+        .spec
+        .decls
+        .iter()
+        .filter(|d| d.tags.contains(&"history") && matches!(&d.ty, Ty::Record(rd) if rd.steps.len() >= 2))
+        .map(|d| &d.name)
+        .collect();
+    let stride = std::cmp::max(1, hist.len() / 60);
+    v.extend(hist.iter().step_by(stride).map(|s| s.to_string()));
     v.retain(|n| u.by_name.contains_key(n));
     v
 }
